@@ -60,6 +60,21 @@ func readVersions(path string) (verState, error) {
 	return v, nil
 }
 
+// l0Around describes the replica's level-0 files n-2..n+2 (diagnostics).
+func (w *World) l0Around(n uint64) string {
+	var b []byte
+	for t := n - 2; t <= n+2; t++ {
+		if t < 1 {
+			continue
+		}
+		p := filepath.Join(w.replicaDir, "ltx", "0", ltx.FormatFilename(ltx.TXID(t), ltx.TXID(t)))
+		if o, err := readL0(p); err == nil {
+			b = append(b, fmt.Sprintf(" [txid=%d off=%d size=%d salts=%d/%d commit=%d pgnos=%v]", t, o.walOffset, o.walSize, o.salt1, o.salt2, o.commit, o.pgnos)...)
+		}
+	}
+	return string(b)
+}
+
 func integrityOf(path string) string {
 	db, err := sql.Open("sqlite", "file:"+path+"?mode=ro")
 	if err != nil {
@@ -231,7 +246,7 @@ func runC02Injected(rc *Recorder, dir string, rng *rand.Rand, steps int) error {
 		return err
 	}
 	w.trace = append(w.trace, "C02 injected commits; ops:")
-	ops := []string{"S", "S", "S", "RS", "SW", "CK-PASSIVE", "CK-FULL", "CK-RESTART", "CK-TRUNCATE", "SNAP", "CMP", "APP", "APP", "APP"}
+	ops := []string{"S", "S", "S", "RS", "SW", "CK-PASSIVE", "CK-FULL", "CK-RESTART", "CK-TRUNCATE", "SNAP", "SNAP", "CMP", "APP", "APP", "APP", "LR+", "LR-"}
 	for i := 0; i < steps+10; i++ {
 		op := ops[rng.Intn(len(ops))]
 		if op == "APP" {
@@ -318,7 +333,26 @@ func (w *World) everyTXIDOracle(rc *Recorder, logical bool) {
 		ia, _ := os.ReadFile(a)
 		ib, _ := os.ReadFile(b)
 		if d := diffPages(ia, ib, w.cfg.PageSize); len(d) > 0 {
-			rc.violate("C02/txid-state-depends-on-plan", fmt.Sprintf("TXID %d restored with all levels differs from the level-0 chain on pages %v (a mixture of commits)", t, trunc(d, 12)), w)
+			// attribute: is it a level-9 snapshot (content ahead of / behind its advertised position) or a compacted file?
+			no9 := filepath.Join(w.dir, "replica-no9")
+			os.RemoveAll(no9)
+			culprit := "unattributed"
+			if err := copyTree(w.replicaDir, no9, func(rel string) bool {
+				return rel == filepath.Join("ltx", "9") || filepath.Dir(rel) == filepath.Join("ltx", "9")
+			}); err == nil {
+				c := filepath.Join(tmp, "no9.db")
+				if err := restoreTo(no9, c, ltx.TXID(t), false); err == nil {
+					ic, _ := os.ReadFile(c)
+					if len(diffPages(ic, ib, w.cfg.PageSize)) == 0 {
+						culprit = "level9-snapshot-content-differs-from-its-position"
+					} else {
+						culprit = "compacted-file-differs-from-l0-chain"
+					}
+				}
+			}
+			os.RemoveAll(no9)
+			rc.violate("C02/txid-state-depends-on-plan:"+culprit, fmt.Sprintf("TXID %d restored with all levels differs from the level-0 chain on pages %v (a mixture of commits); without the level-9 files the restore %s", t, trunc(d, 12),
+				map[string]string{"level9-snapshot-content-differs-from-its-position": "equals the level-0 chain", "compacted-file-differs-from-l0-chain": "still differs", "unattributed": "could not be evaluated"}[culprit])+w.l0Summary(), w)
 			return
 		}
 		if logical {
@@ -332,8 +366,8 @@ func (w *World) everyTXIDOracle(rc *Recorder, logical bool) {
 				continue // before the version tables existed
 			}
 			if v.a != v.b || v.b != v.c || v.a < 0 || v.tmax != v.a || v.tcnt != v.a || v.umax != v.a || v.ucnt != v.a || v.bigmax != v.a {
-				rc.violate("C02/txid-not-a-committed-state", fmt.Sprintf("TXID %d is a mixture of commits: version tables va=%d vb=%d vc=%d, data tables t2 max=%d count=%d, u2 max=%d count=%d, big max=%d",
-					t, v.a, v.b, v.c, v.tmax, v.tcnt, v.umax, v.ucnt, v.bigmax), w)
+				rc.violate("C02/txid-not-a-committed-state", fmt.Sprintf("TXID %d is a mixture of commits: version tables va=%d vb=%d vc=%d, data tables t2 max=%d count=%d, u2 max=%d count=%d, big max=%d; L0 files around it:%s",
+					t, v.a, v.b, v.c, v.tmax, v.tcnt, v.umax, v.ucnt, v.bigmax, w.l0Around(t)), w)
 				return
 			}
 			if v.a < prev {
